@@ -14,10 +14,19 @@ Definition V := N.
 Inductive case :=
 | CPolicy (allow : bool) (decl : list (name * N * V)) (ep : N) (n : name) (svc_has : option (N * V))
           (cls : N) (nreq : N) (tok : V)
+          (wfail : bool)                            (* INPUT: the cache refuses every write made by the call *)
+          (a_secret : bool) (nreq2 : N) (a_polled a_cached : bool)
+          (* afterwards: Secret(n) is a live handle; requests sent by one more LookupSecret(n); the next
+             Refresh asked about n; the cache's contents include n *)
 | CFlight (decl : list (name * N * V)) (n : name) (callers : list caller) (scripts : list (svc V)) (wins : list nat)
           (obs_done : list (N * N * V))            (* per caller, by index: class, instant, token *)
           (obs_log : list mark) (maxconc : N)
           (after_secret after_polled after_cached : bool)
+          (solo : bool)                             (* no other name was looked up in the same store *)
+          (fl_seen fl_ok : bool) (fl_tok : V) (fl_cached : bool)
+          (* the first Cache.Write whose document contains n: happened; the cache's answer (INPUT);
+             the bytes the document carries for n; whether the cache's contents included n right after *)
+          (a_req : bool)                            (* one more LookupSecret(n) afterwards sent a request *)
 | CLate (decl : list (name * N * V)) (n : name) (first second : option (N * V)) (held : bool)
         (b_cls : N) (b_tok : V) (a_cls : N) (a_tok : V) (a_nreq : N) (served : V) (polled_ver : N).
         (* an overtaken flight (F8): caller A is held between its unknown-name check and its flight; B (if
@@ -33,18 +42,33 @@ Definition ep_of (k : N) : entry_point :=
 
 Definition val_of (s : store V) (n : name) : V := match entry s n with Some e => val e | None => 0 end.
 
-Definition check_policy allow decl ep n (svc_has : option (N * V)) cls nreq tok : bool :=
+Definition in_names (n : name) (l : list name) : bool := existsb (neqb n) l.
+
+Definition check_policy allow decl ep n (svc_has : option (N * V)) cls nreq tok
+           (wfail a_secret : bool) (nreq2 : N) (a_polled a_cached : bool) : bool :=
   let s := init_store allow decl in
+  (* the store after the call: only a successful fetch changes the map (a handle may be created) *)
+  let fetched := match policy s (ep_of ep) n, svc_has with PFetch, Some _ => true | _, _ => false end in
+  let s' := match policy s (ep_of ep) n, svc_has with
+            | PFetch, Some (v, b) => fst (lookup_finish s n v b 0%Z)
+            | PHandle, _ => fst (secret_locked s n)
+            | _, _ => s
+            end in
   match policy s (ep_of ep) n with
   | PHandle => (cls =? 0) && (nreq =? 0) && (tok =? val_of s n)
   | PNil => (cls =? 1) && (nreq =? 0)
   | PPanic => (cls =? 2) && (nreq =? 0)
   | PGateErr => (cls =? 3) && (nreq =? 0)
   | PFetch => match svc_has with
-              | Some (v, b) => (cls =? 4) && (nreq =? 1) && (tok =? b)
+              | Some (v, b) => (cls =? 4) && (nreq =? 1) && (tok =? b)   (* whatever the cache answers *)
               | None => (cls =? 3) && (nreq =? 1)      (* not found at the service: reported, nothing else *)
               end
-  end.
+  end
+  && Bool.eqb a_secret (known s' n)
+  && (nreq2 =? (if sends_request (policy s' EPLookup n) then 1 else 0))
+  && Bool.eqb a_polled (in_names n (map fst (requests (snapshot s' 0%Z))))
+  (* the cache holds the construction-time document, and the lookup's iff it was accepted *)
+  && Bool.eqb a_cached (in_names n (map fst (doc s)) || (fetched && negb wfail && in_names n (map fst (doc s')))).
 
 (* result classes of a flight caller: 0 handle, 1 service error, 2 own deadline, 3 own cancellation *)
 Definition cls_of (r : res) : N :=
@@ -76,8 +100,6 @@ Definition mark_beq (a b : mark) : bool :=
   | _, _ => false
   end.
 
-Definition in_names (n : name) (l : list name) : bool := existsb (neqb n) l.
-
 Definition ver_of (s : store V) (n : name) : N := match entry s n with Some e => ver e | None => 0 end.
 
 Definition check_late decl n (first second : option (N * V)) (held : bool) b_cls b_tok a_cls a_tok a_nreq served polled_ver : bool :=
@@ -102,12 +124,16 @@ Definition check (c : case) : bool :=
   match c with
   | CLate decl n first second held b_cls b_tok a_cls a_tok a_nreq served polled_ver =>
       check_late decl n first second held b_cls b_tok a_cls a_tok a_nreq served polled_ver
-  | CPolicy allow decl ep n svc_has cls nreq tok => check_policy allow decl ep n svc_has cls nreq tok
-  | CFlight decl n callers scr wn obs_done obs_log maxconc a_secret a_polled a_cached =>
-      match run n (fuel_for callers) (init callers scr wn (init_store true decl)) with
+  | CPolicy allow decl ep n svc_has cls nreq tok wfail a_secret nreq2 a_polled a_cached =>
+      check_policy allow decl ep n svc_has cls nreq tok wfail a_secret nreq2 a_polled a_cached
+  | CFlight decl n callers scr wn obs_done obs_log maxconc a_secret a_polled a_cached solo fl_seen fl_ok fl_tok fl_cached a_req =>
+      (* the model WITH a cache; the cache's answer to the (only possible) install flush is an input *)
+      match crun n (fuel_for callers) (cinit callers scr wn (init_store true decl) [fl_ok]) with
       | None => false
-      | Some s =>
+      | Some c =>
+          let s := core c in
           let st := lst s in
+          let landed_has := existsb (fun d => in_names n (map fst d)) (landed c) in
           (Nat.eqb (length obs_done) (length callers))
           && done_ok st n (done s) 0 obs_done
           && forallb (res_ok callers) (done s)
@@ -116,6 +142,15 @@ Definition check (c : case) : bool :=
           && (maxconc <=? 1)
           && Bool.eqb (known st n) a_secret
           && Bool.eqb (in_names n (map fst (requests (snapshot st 0%Z)))) a_polled
-          && Bool.eqb (in_names n (map fst (doc st))) a_cached
+          (* exactly the model's documents were offered to the cache, carrying the installed bytes *)
+          && Nat.eqb (length (offered c)) (if fl_seen then 1 else 0)
+          && forallb (fun d => existsb (fun '(k, oe) => neqb k n && match oe with Some (_, b, _) => b =? fl_tok | None => false end) d)
+                     (offered c)
+          && (negb fl_seen || Bool.eqb fl_cached landed_has)
+          (* at the end the cache has the name iff its document landed (a later flush of ANOTHER name's
+             lookup may bring it along: then anything goes) *)
+          && (if solo then Bool.eqb a_cached landed_has
+              else if landed_has then a_cached else if known st n then true else negb a_cached)
+          && Bool.eqb a_req (sends_request (policy st EPLookup n))
       end
   end.
